@@ -368,6 +368,15 @@ Definition tract_place (chs : list pchunk) (acc : list nat) (t : nat) : list Z :
 Definition enc_chunk (c : chunk) : list Z :=
   nz (length c) :: flat_map (fun e => [nz (e_tr e); Nz (e_off e); Nz (e_len e)]) c.
 
+(* ---------- pack_tracts.go packChunks: the piece ids of a round ----------
+   one AllocateRSChunkIDs(count*(n+m)) gives [base]; stripe i works on base + i*(n+m) (baseChunkID.Add(n+m) per
+   stripe) and its piece j has id stripe base + j *)
+Definition stripe_base (base : N) (n m i : nat) : N := base + N.of_nat (i * (n + m)).
+Definition piece_ids (base : N) (n m i : nat) : list N :=
+  map (fun j => stripe_base base n m i + N.of_nat j) (seq 0 (n + m)).
+Definition round_ids (base : N) (n m stripes : nat) : list N :=
+  flat_map (piece_ids base n m) (seq 0 stripes).
+
 (* ---------- the states built by ops 10 / 11 / 15 (named so that invariants can be stated about them) ---------- *)
 (* op 10: packTracts on the tracts in their post-sort order *)
 Definition st_pack (n' m' : nat) (tg sl : N) (trs : list tract) : st :=
@@ -454,6 +463,8 @@ Definition step (s : st) (op : list Z) : st * list Z :=
       (st_pack n' m' tg sl trs,
        nz (length trs) :: flat_map (tract_place chs (map pc_leader acc)) (seq 0 (length trs))
           ++ nz (length acc) :: map (fun c => nz (pc_leader c)) acc)
+  | [16%Z; base; n; m; k] =>
+      (s, map Nz (round_ids (zN base) (Z.to_nat n) (Z.to_nat m) (Z.to_nat k)))
   | 11%Z :: cnt :: leaders =>
       let ls := map Z.to_nat leaders in
       let lens := map (fun l => match find_chunk s l with Some c => pc_len c | None => 0 end) ls in
